@@ -19,16 +19,28 @@ PROPERTY = "C12"
 LEVEL = "fault_enumeration"
 RULE = ("case = (payload length and content, sequence of sub-block sizes 1..127 offered by the server, CRC "
         "requested by client x supported by server, write route: raw stream with a generated chunking / "
-        "buffered stream, set of client segment ordinals to drop). Enumerated: every length 1..64 and all "
+        "buffered stream, set of client segment ordinals to drop, counted over the segments the client "
+        "transmits, retransmitted ones included). Enumerated: every length 1..64 and all "
         "7k+-1 / blksize*7+-1 boundaries undisturbed; every single lost segment position for lengths <= 200 "
-        "x block sizes {1,2,3,4,127,mixed}; Hypothesis adds random lengths up to 10^4, random block-size "
-        "sequences and multi-loss sets. Oracle: strict reference block server (sequence numbers, c flag, n, "
-        "CRC recomputed bitwise, size, reserved bits); undisturbed or single loss of a non-last segment of a "
-        "non-final sub-block => normal return and exact payload; otherwise normal return => exact payload. "
+        "x block sizes {1,2,3,4,127,mixed} with CRC requested, again for lengths <= 200 without CRC, and for "
+        "lengths 150..2000 x block sizes 10..127 (acknowledged sequence numbers up to 126); lengths 4000..10001 "
+        "undisturbed and with one repairable loss; every pair of "
+        "lost transmitted segments k1 < k2 (k2 may be a retransmitted segment: loss inside the "
+        "retransmission) for lengths {33,70,75,100} x block sizes {1,2,3,4,[5,2],[5,1,127,2],[2,9]} x CRC "
+        "on/off; Hypothesis adds random lengths up to 10^4, random block-size sequences, multi-loss sets and "
+        "nested patterns (first loss, then a loss among the segments resent for it, then possibly a third). "
+        "Oracle: strict reference block server (sequence numbers, c flag, n, CRC recomputed bitwise, size, "
+        "reserved bits); undisturbed, or exactly one lost segment (any segment, the one closing the sub-block "
+        "included) of a sub-block that is not the final one => normal return and exact payload; otherwise "
+        "normal return => exactly one commit of exactly the payload and the server not left mid-transfer. "
         "Non-trivial = >=2 sub-blocks, or a loss, or a block-size change; distinct = canonical JSON.")
 ASSUMPTIONS = [
     "a server time-out is emulated: when the dropped frame was the one ending the sub-block the model "
-    "acknowledges at once what it has received in sequence",
+    "acknowledges at once what it has received in sequence (so a lost last segment of a non-final sub-block is "
+    "answered with ackseq = block size - 1 and the next block size, as a conformant server does after its "
+    "time-out)",
+    "'a sub-block other than the final one' is read as: the lost segment belongs to a sub-block that is not the "
+    "final one of the undisturbed partition; a single loss inside the final sub-block is in the 'may fail' class",
     "buffered routes only use writes the raw stream's documented contract supports (one write of the whole "
     "payload, or chunks that are multiples of 7 with a buffer that is a multiple of 7)",
 ]
@@ -138,12 +150,18 @@ def run_case(case) -> Outcome:
     nsegs = max(1, math.ceil(n / 7))
     parts = subblocks(nsegs, blks)
     dropped = counter["dropped"]
+    # "one segment of a sub-block other than the final one is lost": exactly one client segment was dropped
+    # and it belonged to a sub-block that is not the final one - whichever segment of that sub-block it was,
+    # the one closing the sub-block included (the server then acknowledges one segment less than the block
+    # size after its time-out and CiA 301 has the client resend from ackseq + 1).
     repairable = False
+    last_of_subblock = False
     if dropped == 1 and len(loss) >= 1:
         k = min(loss)
         for j, (a, b) in enumerate(parts):
             if a <= k <= b:
-                repairable = j < len(parts) - 1 and k != b
+                repairable = j < len(parts) - 1
+                last_of_subblock = k == b
     committed = [c for c in srv.commits if (c[0], c[1]) == (0x2000 + (n & 0xFF), n & 0x7F)]
     idx, sub = 0x2000 + (n & 0xFF), n & 0x7F
     where = (f"len {n} blksizes {blks[:6]} crc {case.get('crc_req', True)}/{srv.crc_support} buffering "
@@ -161,15 +179,17 @@ def run_case(case) -> Outcome:
         elif srv.client_aborts:
             D.append(Discrepancy("C12/undisturbed/abort", f"{where}: client aborted {srv.client_aborts}"))
     elif repairable:
-        kind = "single-loss-repairable"
+        kind = "single-loss-last-of-subblock" if last_of_subblock else "single-loss-repairable"
+        sig = "C12/repairable-loss/last-of-subblock" if last_of_subblock else "C12/repairable-loss"
         if exc is not None:
-            D.append(Discrepancy("C12/repairable-loss/raises",
+            D.append(Discrepancy(sig + "/raises",
                                  f"{where}: {type(exc).__name__}: {exc}; server errors {srv.errors[:2]}"))
         elif len(committed) != 1 or committed[0][2] != data:
-            D.append(Discrepancy("C12/repairable-loss/payload", f"{where}: server committed "
+            D.append(Discrepancy(sig + "/payload", f"{where}: server committed "
                                  f"{[(c[2][:16].hex(), len(c[2])) for c in committed]} want {len(data)}B"))
     else:
-        kind = "other-loss/" + ("returned" if exc is None else "raised")
+        kind = ("other-loss" if dropped == 1 else "two-loss" if dropped == 2 else "multi-loss") + \
+            "/" + ("returned" if exc is None else "raised")
         if exc is None and (len(committed) != 1 or committed[0][2] != data):
             D.append(Discrepancy("C12/loss/normal-return-without-exact-payload",
                                  f"{where}: returned normally but server committed "
@@ -241,6 +261,115 @@ def enum_single_loss():
                        "buffering": 0 if k % 2 else 1024, "chunks": [], "loss": [k]}
 
 
+def enum_single_loss_nocrc():
+    """The single-loss positions again without CRC (not requested, or requested and not supported): nothing
+    but the retransmission itself protects the payload there."""
+    for n in list(range(2, 201, 9)) + [14, 15, 49, 50, 63, 64, 70, 71]:
+        nsegs = math.ceil(n / 7)
+        for blks in ([1], [2], [3], [4], [5, 1, 127, 2], [2, 9], [7, 3]):
+            for k in range(nsegs):
+                yield {"len": n, "salt": k + 1, "blksizes": blks, "crc_req": (k + n) % 3 == 0, "crc_srv": (k + n) % 3 != 0,
+                       "buffering": 1024 if k % 2 else 0, "chunks": [], "loss": [k]}
+
+
+def enum_single_loss_big(thorough):
+    """Every single lost segment position with block sizes / acknowledged sequence numbers well above 9
+    (a sub-block of 127 is only non-final when the payload is longer than 889 bytes)."""
+    combos = [(150, [10]), (300, [20, 9]), (900, [64]), (900, [127, 3]), (1000, [100, 127]), (1790, [127])]
+    if thorough:
+        combos += [(889 + 8, [127]), (2 * 889 + 1, [127, 126]), (700, [33, 17, 90]), (1500, [126]),
+                   (1200, [50, 127, 1]), (640, [13]), (2000, [127, 127, 5])]
+    for n, blks in combos:
+        nsegs = math.ceil(n / 7)
+        for k in range(nsegs):
+            crc_req, crc_srv = ((True, True), (False, True), (True, False), (True, True))[(k + n) % 4]
+            yield {"len": n, "salt": k % 29, "blksizes": blks, "crc_req": crc_req, "crc_srv": crc_srv,
+                   "buffering": (0, 1024, 0, 7 * 64)[k % 4], "chunks": [], "loss": [k]}
+
+
+def enum_long(thorough):
+    """Undisturbed transfers (and one repairable loss) at the upper end of the quantifier's length range."""
+    lens = [4000, 7 * 127 * 9 - 1, 7 * 127 * 9, 7 * 127 * 9 + 1, 9996, 9999, 10000, 10001]
+    if thorough:
+        lens += [5000, 6223, 7 * 127 * 11, 7 * 127 * 11 + 1, 9995, 9997, 10003, 10500]
+    i = 0
+    for n in lens:
+        for blks in ([127], [126, 127], [64], [5, 1, 127, 2, 90]):
+            for crc_req, crc_srv in ((True, True), (False, True)) + (((True, False), (False, False)) if thorough else ()):
+                i += 1
+                route = [(0, []), (1024, []), (0, [7] * 3 + [13, 1, 20]), (700, [700, 70])][i % 4]
+                case = {"len": n, "salt": i % 13, "blksizes": blks, "crc_req": crc_req, "crc_srv": crc_srv,
+                        "buffering": route[0], "chunks": route[1]}
+                yield case
+                if i % 2:
+                    yield dict(case, loss=[(i * 37) % (math.ceil(n / 7) - 130)])
+
+
+TWO_LOSS_BLKS = [[1], [2], [3], [4], [5, 2], [5, 1, 127, 2], [2, 9]]
+
+
+def enum_two_loss(thorough):
+    """Every pattern of two lost client segments k1 < k2 counted over the segments the client transmits,
+    retransmitted ones included (k2 beyond the first pass = a loss inside the retransmission)."""
+    lens = [33, 70, 75, 100]
+    if thorough:
+        lens += [20, 36, 64, 99, 105, 141, 200]
+    for n in lens:
+        nsegs = math.ceil(n / 7)
+        for blks in TWO_LOSS_BLKS:
+            hi = nsegs + 2 * min(max(blks), nsegs) + 2
+            hi = min(hi, nsegs + (24 if thorough else 12))
+            for crc_req, crc_srv in ((True, True), (False, True)) + (((True, False),) if thorough else ()):
+                for k1 in range(nsegs):
+                    for k2 in range(k1 + 1, hi):
+                        yield {"len": n, "salt": k1 + 3 * k2, "blksizes": blks, "crc_req": crc_req,
+                               "crc_srv": crc_srv, "buffering": 1024 if (k1 + k2) % 3 == 0 else 0, "chunks": [],
+                               "loss": [k1, k2]}
+
+
+@st.composite
+def rand_nested_loss(draw, max_len):
+    """Seeded multi-loss patterns aimed at the retransmission: a first loss k1 in some sub-block [a, b]
+    (its resend starts with transmitted segment number b + 1), a second loss among the resent segments and
+    possibly further ones shortly after; lengths up to max_len, any block-size sequence."""
+    n = draw(st.one_of(st.integers(8, 400), st.sampled_from(boundary_lengths()),
+                       st.integers(24, int(math.log2(max_len) * 8)).map(lambda e: min(max_len, int(2 ** (e / 8.0))))))
+    blks = draw(st.one_of(st.lists(st.integers(1, 12), min_size=1, max_size=5),
+                          st.lists(st.integers(1, 127), min_size=1, max_size=6)))
+    nsegs = math.ceil(n / 7)
+    if nsegs / min(blks) > 600:
+        blks = [b if b > 3 else 127 for b in blks]
+    parts = subblocks(nsegs, blks)
+    j = draw(st.integers(0, max(0, len(parts) - 2)))
+    if draw(st.integers(0, 7)) == 0:
+        j = len(parts) - 1
+    a, b = parts[j]
+    k1 = draw(st.integers(a, b))
+    resent = b - k1 + 1
+    mode = draw(st.sampled_from(["one", "nested", "nested", "nested3", "later"]))
+    loss = [k1]
+    if mode in ("nested", "nested3"):
+        loss.append(b + 1 + draw(st.integers(0, resent - 1)))
+        if mode == "nested3":
+            loss.append(loss[-1] + 1 + draw(st.integers(0, resent + 2)))
+    elif mode == "later":
+        loss.append(b + 1 + resent + draw(st.integers(0, 20)))
+    case = {"len": n, "salt": draw(st.integers(0, 200)), "blksizes": blks,
+            "crc_req": draw(st.booleans()), "crc_srv": draw(st.integers(0, 3)) != 0}
+    route = draw(st.sampled_from(["raw", "raw", "raw_chunks", "buffered_all", "buffered_7"]))
+    if route == "raw":
+        case.update(buffering=0, chunks=[])
+    elif route == "raw_chunks":
+        case.update(buffering=0, chunks=draw(st.lists(st.integers(1, 40), min_size=1, max_size=10)))
+    elif route == "buffered_all":
+        case.update(buffering=draw(st.sampled_from([2, 7, 100, 700, 1024, 8192])), chunks=[])
+    else:
+        case.update(buffering=7 * draw(st.integers(1, 200)),
+                    chunks=[7 * k for k in draw(st.lists(st.integers(1, 30), min_size=1, max_size=8))])
+    case["loss"] = loss
+    return case
+
+
 @st.composite
 def rand_case(draw, max_len):
     n = draw(st.one_of(st.sampled_from(boundary_lengths()), st.integers(1, 300),
@@ -278,6 +407,19 @@ def rand_case(draw, max_len):
 
 def search(ctx):
     thorough = ctx.tier == "thorough"
+    # all enumerated families first: they must not depend on what the Hypothesis phases leave of the budget
     ctx.enumerate(enum_undisturbed(), "boundary lengths x block-size sequences x CRC negotiation, undisturbed")
     ctx.enumerate(enum_single_loss(), "every single lost segment position, lengths <= 200 x block sizes")
-    ctx.hypothesis(rand_case(10000 if thorough else 3000), 25000 if thorough else 1500)
+    ctx.enumerate(enum_two_loss(thorough), "every pair of lost transmitted segments (retransmitted ones included), "
+                                           "lengths <= 100 (thorough <= 200) x small block sizes x CRC on/off")
+    ctx.enumerate(enum_single_loss_nocrc(), "every single lost segment position without CRC, lengths <= 200")
+    ctx.enumerate(enum_single_loss_big(thorough), "every single lost segment position, block sizes 10..127, "
+                                                  "lengths 150..2000")
+    ctx.enumerate(enum_long(thorough), "lengths 4000..10^4 (+-1 around 10^4 and 7*127*9), undisturbed and one "
+                                       "repairable loss")
+    # Hypothesis: rounds of (general strategy, nested-loss strategy) so that both get a share of the budget;
+    # the quick tier is one round (salt 0: the same 1500 examples as before the nested strategy was added)
+    rounds = 10 if thorough else 1
+    for r in range(rounds):
+        ctx.hypothesis(rand_case(10000 if thorough else 3000), 2500 if thorough else 1500, salt=2 * r)
+        ctx.hypothesis(rand_nested_loss(10000), 600, salt=2 * r + 1)
